@@ -1039,12 +1039,11 @@ theorem lc_join_tokens {c : Cfg} {l : Local} {file : File} {din : Option Desc} {
   · exact Or.inl h1
   · exact Or.inr (fun i hi hti => h1 (mem_allTokens.mpr ⟨i, hi, hti⟩))
 
-/-- BasicLifecycler registration: with the kept tokens known to the generator (i.e. they are the ring
-entry's, or there are none) the entry gets exactly `numTokens` distinct sorted tokens, kept ones included,
-new ones in nobody's list. -/
+/-- BasicLifecycler registration: the kept tokens (ring entry or tokens file) are reported to the generator as
+taken, so the entry gets exactly `numTokens` distinct sorted tokens, kept ones included, new ones neither kept nor
+in anybody's list. -/
 theorem blc_register_tokens {c : Cfg} {l : Local} {file : File} {din : Option Desc} {shuf : List Nat} {now : Int} {gen : Gen} {fault : Fault}
     (hk : c.kind = .BLC) (hg : GenOK gen) (hf : fault ≠ .failBefore)
-    (hsub : ∀ t ∈ blcInherited c file (Desc.get? (din.getD []) c.id), t ∈ allTokens (din.getD []))
     (hnd : (blcInherited c file (Desc.get? (din.getD []) c.id)).Nodup)
     (hle : (blcInherited c file (Desc.get? (din.getD []) c.id)).length ≤ c.numTokens) :
     ∃ d' b, (step c l file din (.init shuf) now gen fault).out = .write d' ∧ Desc.get? d' c.id = some b ∧
@@ -1052,28 +1051,16 @@ theorem blc_register_tokens {c : Cfg} {l : Local} {file : File} {din : Option De
       b.tokens.length = c.numTokens ∧ b.tokens.Pairwise (· < ·) ∧
       (∀ t ∈ blcInherited c file (Desc.get? (din.getD []) c.id), t ∈ b.tokens) ∧
       (∀ t ∈ b.tokens, t ∈ blcInherited c file (Desc.get? (din.getD []) c.id) ∨ ∀ i ∈ din.getD [], t ∉ i.tokens) := by
+  have hsub : ∀ t ∈ blcInherited c file (Desc.get? (din.getD []) c.id),
+      t ∈ allTokens (din.getD []) ++ blcInherited c file (Desc.get? (din.getD []) c.id) :=
+    fun t ht => List.mem_append.mpr (Or.inr ht)
   have h := topup_ok hg hsub hnd hle
   simp only [step, hk, blcRegister, hf, if_false]
   refine ⟨_, _, rfl, get?_put_self _ _, rfl, h.1, h.2.1, h.2.2.1, ?_⟩
   intro t ht
   rcases h.2.2.2 t ht with h1 | h1
   · exact Or.inl h1
-  · exact Or.inr (fun i hi hti => h1 (mem_allTokens.mpr ⟨i, hi, hti⟩))
-
-/-- tokens inherited from the ring entry are always known to the generator -/
-theorem blcInherited_ring_sub {c : Cfg} {file : File} {d : Desc} {i : Inst}
-    (hget : Desc.get? d c.id = some i) (hne : i.tokens ≠ [] ∨ c.hasFile = false) :
-    ∀ t ∈ blcInherited c file (Desc.get? d c.id), t ∈ allTokens d := by
-  intro t ht
-  rw [hget] at ht
-  simp only [blcInherited] at ht
-  have hnil : i.tokens.length = 0 → i.tokens = [] := List.eq_nil_of_length_eq_zero
-  by_cases hc : c.hasFile = true ∧ i.tokens.length = 0
-  · rcases hne with h | h
-    · exact absurd (hnil hc.2) h
-    · rw [h] at hc; simp at hc
-  · rw [if_neg hc] at ht
-    exact mem_allTokens.mpr ⟨i, get?_some_mem hget, ht⟩
+  · exact Or.inr (fun i hi hti => h1 (List.mem_append.mpr (Or.inl (mem_allTokens.mpr ⟨i, hi, hti⟩))))
 
 /-! ### readiness -/
 
